@@ -4,7 +4,10 @@ import NA.Model.MaskFlow
 # C17: which lemma covers which sink call site
 
 `NA.Gen.Sinks.sites` is regenerated from `/repo` on every run by `translate/sinks` (typed call
-resolution; EVERY sink call of the module, with its sink kind).  The table below
+resolution; EVERY sink call of the module, with its sink kind).  The id of a site hashes its PACKAGE,
+its sink kind, its taint CLASS (raw / masked secrets with the failure KIND they came through) and its
+ordinal among the sites of that package with the same kind and class (interchangeable) — no function
+name, no argument text, no local names, no positions, no ids of clean error sources.  The table below
 is written by hand: it maps the id of every site (a hash of package, function, sink, argument text,
 taint class and ordinal) to the reason why that site cannot reveal a secret — or to the known
 finding F-C17.  A new sink call in scope of a secret, a changed argument, a changed taint class
@@ -40,141 +43,11 @@ inductive Cover where
   deriving DecidableEq, Repr
 
 def cover : List (Nat × Cover) := [
-  (1426961306, .clean),  -- stderr: program.LoadConfig$insert: program.warn("Ignoring key '%s' in %s", key, file)
-  (1073036779, .clean),  -- stderr: program.LoadConfig: program.warn("Ignoring line '%s' in %s", line, file)
-  (2983541576, .clean),  -- stderr: program.LoadConfig: program.warn("Ignoring duplicate key '%s' in %s", key, file)
-  (3454247151, .wrapper),  -- stderr: program.warn: fmt.Fprintf("WARNING>>> " + f + "\n", l)
-  (2216227620, .clean),  -- stdout: program.Config.askPassword: fmt.Printf("Enter password for %q: ", c.User)
-  (3847446527, .clean),  -- status: status.write: os.WriteFile(data)
-  (2977074346, .wrapper),  -- runlog: errlog.Abort: errlog.PrintWithMarker("ERROR>>> ", format, args)
-  (1396502767, .wrapper),  -- runlog: errlog.Info: fmt.Fprintf(format + "\n", args)
-  (1376859058, .wrapper),  -- runlog: errlog.Warning: errlog.PrintWithMarker("WARNING>>> ", format, args)
-  (3576850227, .wrapper),  -- session: errlog.DoLog: fmt.Fprintln(s)
-  (1920489586, .clean),  -- runlog: errlog.SetStderrLog: errlog.Abort("Can't %v", err)
-  (3237979617, .wrapper),  -- runlog: errlog.PrintWithMarker: fmt.Fprintln(m + out)
-  (700362208, .maskError),  -- runlog: httpdevice.TryReachableHTTPLogin: errlog.Warning("%v", err)
-  (3227160347, .nsxLogin),  -- session: nsx.State.LoadDevice$lit1: errlog.DoLog("POST " + uri)
-  (2387804195, .nsxLogin),  -- session: nsx.State.LoadDevice$lit1: errlog.DoLog(v.Encode())
-  (511489133, .nsxLogin),  -- session: nsx.State.LoadDevice$lit1: errlog.DoLog(resp.Status)
-  (1169988799, .clean),  -- session: nsx.State.LoadDevice: errlog.DoLog(string(out))
-  (2052658711, .clean),  -- session: nsx.State.ApplyCommands: errlog.DoLog(fmt.Sprintf("URI: %s %s", c.method, c.url))
-  (4288076833, .clean),  -- session: nsx.State.ApplyCommands: errlog.DoLog("DATA: " + string(c.postData))
-  (3834011480, .clean),  -- session: nsx.State.ApplyCommands: errlog.DoLog("RESP: " + string(resp))
-  (2577016526, .clean),  -- runlog: nsx.rulesPair.equalizeGroups$equalize: errlog.Abort("Rule %s references group %s not defined in Netspoc config", rb.)
-  (1117039505, .clean),  -- runlog: panos.PanConfig.MergeSpoc: errlog.Abort("%v", err)
-  (3803006649, .clean),  -- runlog: panos.checkNameClash$clash: errlog.Abort("Name clash for %s '%s' in vsys '%s'", typ, name, v2.Name)
-  (4200236841, .maskUri),  -- session: panos.State.getAPIKey: errlog.DoLog(loggedURI)
-  (2697921176, .maskBody),  -- session: panos.State.getAPIKey: errlog.DoLog(loggedBody)
-  (3936129588, .maskApi),  -- session: panos.State.httpPrefixGetLog: errlog.DoLog(loggedURI)
-  (2229408357, .clean),  -- session: panos.State.httpPrefixGetLog: errlog.DoLog(string(body))
-  (1840648610, .clean),  -- runlog: panos.vsysInfo.checkGroupCycle$visit: errlog.Abort("Address-group %s of %s must not be member of itself", name, v.v)
-  (1916444384, .wrapper),  -- session: console.Conn.logString: (*os.File).Write([]byte(s))
-  (834731291, .deviceOutput),  -- session: console.Conn.expectLog: console.Conn.logString(out)
-  (3330218861, .deviceOutput),  -- runlog: console.Conn.WaitLogin: errlog.Abort("while waiting for login prompt '%s': %v", prompt, err)
-  (571890465, .deviceOutput),  -- runlog: console.Conn.WaitShort: errlog.Abort("while waiting for prompt '%s': %v", prompt, err)
-  (3014076404, .deviceOutput),  -- runlog: console.Conn.waitPrompt: errlog.Abort("while waiting for prompt '%s': %v", re, err)
-  (2975503333, .deviceOutput),  -- session: console.Conn.TryPrompt: console.Conn.logString(out)
-  (1216371541, .deviceOutput),  -- runlog: console.Conn.StripStdPrompt: errlog.Abort("Missing prompt '%s' in response:\n'%v'", c.promptRE, s)
-  (3433759965, .deviceOutput),  -- runlog: console.Conn.StripEcho: errlog.Abort("Got unexpected echo in response to '%s':\n%v", cShort, s)
-  (1217757606, .clean),  -- runlog: linux.config.MergeSpoc: errlog.Info("Adding all chains of table %q", tName)
-  (2896584212, .clean),  -- runlog: linux.config.MergeSpoc: errlog.Info("Adding chain %q of table %q", cName, tName)
-  (138981777, .clean),  -- runlog: linux.config.MergeSpoc: errlog.Abort("Must not redefine chain %q of table %q from rawdata", cName, tN)
-  (2544861981, .clean),  -- runlog: linux.State.loginEnable: errlog.Abort("Authentication failed")
-  (2348113633, .clean),  -- runlog: linux.State.checkDeviceName: errlog.Abort("Wrong device name: %q, expected: %q", out, name)
-  (357488966, .clean),  -- runlog: linux.State.ApplyCommands: errlog.Info("Changing iptables running config")
-  (1227911293, .clean),  -- runlog: linux.State.cmd$check: errlog.Abort("Got unexpected output from '%s':\n%s", ci, out)
-  (2540034090, .clean),  -- runlog: linux.State.cmd: errlog.Abort("%s failed (exit status)", strings.Replace(c, "\n", "\\N ", 1))
-  (3687608776, .clean),  -- runlog: linux.State.findIPTablesRestoreCmd: errlog.Abort("Can't find path of 'iptables-restore'")
-  (2521483344, .clean),  -- runlog: linux.createTemp: errlog.Abort("can't %v", err)
-  (590331065, .clean),  -- tempfile: linux.State.writeStartup: fmt.Fprintln(entry)
-  (650155503, .clean),  -- runlog: linux.State.putScp: errlog.Info("Executing %s", cmd)
-  (3392866934, .clean),  -- runlog: linux.State.putScp: errlog.Abort("%s failed: %v", cmd, err)
-  (2771926209, .clean),  -- runlog: linux.parseRoutes: errlog.Abort("Unexpected route: %s", line)
-  (2721593352, .clean),  -- runlog: linux.parseRoutes: errlog.Abort("Unexpected route: %s", line)
-  (2738370971, .clean),  -- runlog: linux.parseRoutes: errlog.Abort("Unexpected route: %s", line)
-  (699153998, .clean),  -- runlog: linux.State.parseIPTables: errlog.Abort("Duplicate definition of table %q", name)
-  (500415177, .clean),  -- runlog: linux.State.parseIPTables: errlog.Abort("Found chain policy outside of table: %q", line)
-  (2053131115, .clean),  -- runlog: linux.State.parseIPTables: errlog.Abort("Duplicate definition of chain %q", name)
-  (3575798326, .clean),  -- runlog: linux.State.parseIPTables: errlog.Abort("Found rule outside of table: %q", line)
-  (558206277, .clean),  -- runlog: linux.State.parseIPTables: errlog.Abort("Unsupported command %q", words[0])
-  (4036031923, .clean),  -- runlog: linux.State.parseIPTables: errlog.Abort("Incomplete command %q", line)
-  (1952996750, .clean),  -- runlog: linux.State.parseIPTables: errlog.Abort("Must define policy before adding rules of chain %q", name)
-  (2117441651, .clean),  -- runlog: linux.State.parseIPTables: errlog.Abort("Unexpected trailing '!' in line\n %s", line)
-  (2696918469, .clean),  -- runlog: linux.State.parseIPTables: errlog.Abort("Unknown command: %q", line)
-  (169398385, .clean),  -- runlog: cisco.Config.MergeSpoc: errlog.Abort("Command '%s' not supported in raw file", prefix)
-  (3566671858, .clean),  -- runlog: cisco.Config.MergeSpoc: errlog.Warning(w)
-  (4128988398, .clean),  -- runlog: cisco.mergeRefs: errlog.Abort("Name clash for '%s %s' from raw", prefix, bName)
-  (2816566019, .clean),  -- runlog: cisco.mergeRefs: errlog.Abort("Must reference '%s %s' only once in raw", prefix, bName)
-  (4112210779, .clean),  -- runlog: cisco.mergeRefs: errlog.Abort("Name clash for '%s %s' from raw", prefix, bName)
-  (2833343638, .clean),  -- runlog: cisco.mergeRefs: errlog.Abort("Must reference '%s %s' only once in raw", prefix, bName)
-  (3641969052, .clean),  -- runlog: cisco.State.LoginEnable: errlog.Abort("Authentication for enable mode failed")
-  (2272147273, .clean),  -- runlog: cisco.State.LoginEnable: errlog.Abort("Authentication failed")
-  (2472794488, .clean),  -- runlog: cisco.State.diffIOSACLs: errlog.Abort("Can't insert more than 9999 ACL lines at once")
-  (975308388, .clean),  -- runlog: cisco.State.diffRoutes: errlog.Info("No %s routing specified%s, leaving untouched", ipv, forVRF)
-  (3030466106, .clean),  -- runlog: cisco.State.addCmds$add: errlog.Abort("'%s %s' must be transferred manually", prefix, name)
-  (3743337501, .clean),  -- runlog: cisco.matchCryptoMap$getPeer: errlog.Abort("Missing peer or dynamic in crypto map %s %d", name, seq)
-  (2502471318, .clean),  -- runlog: cisco.dstOfRoute$need: errlog.Abort("Incomplete command: %s", c.orig)
-  (263699527, .clean),  -- runlog: cisco.dstOfRoute: errlog.Abort("Missing IPv6 prefix in: %s", c.orig)
-  (3118206848, .clean),  -- runlog: cisco.State.checkASAInterfaces: errlog.Warning("Interface '%s' on device is not known by Netspoc", name)
-  (3467279565, .clean),  -- runlog: cisco.State.checkIOSInterfaces: errlog.Warning("Different address defined for interface %s:" + " Device: %q, Ne)
-  (3326433818, .clean),  -- runlog: cisco.State.checkIOSInterfaces: errlog.Warning("Interface '%s' on device is not known by Netspoc", name)
-  (1175934409, .clean),  -- runlog: cisco.State.alignVRFs$routeVRF: errlog.Abort("Incomplete command: %s", c.orig)
-  (57027769, .clean),  -- runlog: cisco.State.alignVRFs: errlog.Info("Leaving VRF %s untouched", vrf)
-  (698495856, .clean),  -- runlog: cisco.postprocessParsed$setTransRef: errlog.Abort("Too many names (max. 11) in: %s", c.orig)
-  (2889098575, .clean),  -- runlog: cisco.postprocessParsed: errlog.Abort("Incomplete command: %s", c.orig)
-  (3451097736, .clean),  -- runlog: cisco.postprocessParsed: errlog.Abort("aaa-server %s must not use different values" + " in 'ldap-attri)
-  (873580146, .clean),  -- runlog: cisco.postprocessACLParts$need: errlog.Abort("Incomplete command: %s", c.orig)
-  (4176661979, .clean),  -- runlog: ios.State.LoadDevice: errlog.Info("Requesting device config")
-  (3049987104, .clean),  -- runlog: ios.State.LoadDevice: errlog.Info("Got device config")
-  (919505617, .clean),  -- runlog: ios.State.LoadDevice: errlog.Info("Parsed device config")
-  (4076438413, .clean),  -- runlog: ios.State.checkDeviceName: errlog.Abort("Wrong device name: %q, expected: %q", out, name)
-  (4209456557, .clean),  -- runlog: ios.State.writeMem: errlog.Abort("write mem: startup-config open failed - giving up")
-  (2112386411, .clean),  -- runlog: ios.State.writeMem: errlog.Abort("write mem: unexpected result: %s", out)
-  (1015451057, .clean),  -- runlog: ios.State.cmd$check: errlog.Abort("Got unexpected output from '%s':\n%s", ci, out)
-  (3282946265, .clean),  -- runlog: ios.isValidOutput: errlog.Warning("Got unexpected output from '%s':\n%s", cmd, line)
-  (2290859593, .clean),  -- runlog: ios.State.stripReloadBanner: errlog.Info("Found banner before output, expecting another prompt")
-  (1374261373, .clean),  -- runlog: ios.State.stripReloadBanner: errlog.Info("Found banner after output, checking another prompt")
-  (1613414424, .clean),  -- runlog: ios.State.stripReloadBanner: errlog.Info("- Found prompt")
-  (377219855, .clean),  -- runlog: asa.State.LoadDevice: errlog.Info("Requesting device config")
-  (2824083316, .clean),  -- runlog: asa.State.LoadDevice: errlog.Info("Got device config")
-  (2755228629, .clean),  -- runlog: asa.State.LoadDevice: errlog.Info("Parsed device config")
-  (1279131209, .clean),  -- runlog: asa.State.checkDeviceName: errlog.Abort("Wrong device name: %q, expected: %q", out, name)
-  (1723310009, .clean),  -- runlog: asa.State.ApplyCommands: errlog.Abort("Command 'write memory' failed, missing [OK] in output:\n%s", ou)
-  (994375333, .clean),  -- runlog: asa.State.cmd$check: errlog.Abort("Got unexpected output from '%s':\n%s", ci, out)
-  (3255740205, .clean),  -- runlog: asa.isValidOutput: errlog.Warning("Got unexpected output from '%s':\n%s", cmd, line)
-  (2784897780, .clean),  -- runlog: device.getRealDevice: errlog.Abort("Unexpected model %q in file %s.info\n", info.Model, fname)
-  (89461454, .fc17),  -- runlog: device.ApproveOrCompare$lit1: errlog.Abort("%v", err)
-  (2232016160, .clean),  -- runlog: device.CompareFiles$lit1: errlog.Abort("%v", err)
-  (2282349017, .clean),  -- runlog: device.CompareFiles$lit1: errlog.Abort("%v", err)
-  (528105773, .clean),  -- stdout: device.CompareFiles$lit1: fmt.Print(s.ShowChanges())
-  (2884083270, .clean),  -- runlog: device.state.compare: errlog.Warning("%v", w)
-  (2575302032, .clean),  -- session: device.state.compare: fmt.Fprint(s.ShowChanges())
-  (2701900043, .clean),  -- session: device.state.applyCommands: errlog.DoLog("No changes applied")
-  (1255930830, .clean),  -- runlog: device.state.showCompareInfo: errlog.Info("comp: device unchanged")
-  (749016665, .clean),  -- runlog: device.state.showCompareInfo: errlog.Info("comp: *** device changed ***")
-  (608377184, .clean),  -- stderr: doapprove.Main$lit1: fmt.Fprintf("Usage: %s [options] approve|compare DEVICE\n%s", os.Args[0], fs)
-  (1019141266, .clean),  -- stderr: doapprove.Main: fmt.Fprintf("Error: %v\n", err)
-  (3993843838, .clean),  -- stderr: doapprove.Main: doapprove.abort("%v", err)
-  (2490239823, .clean),  -- stderr: doapprove.Main: doapprove.abort("Can't get 'current' policy directory: %v", err)
-  (3858590340, .clean),  -- stderr: doapprove.Main: doapprove.abort("unknown device %q", devName)
-  (3977066219, .clean),  -- stderr: doapprove.Main: doapprove.abort("%v", err)
-  (28087493, .clean),  -- stderr: doapprove.Main: doapprove.abort("can't %v", err)
-  (3351421981, .clean),  -- history: doapprove.Main: doapprove.logHistory(hLog, "START:", strings.Join(os.Args[1:], " "))
-  (923939698, .clean),  -- history: doapprove.Main: doapprove.logHistory(hLog, "POLICY:", policy)
-  (4272721932, .clean),  -- stderr: doapprove.Main: doapprove.abort("can't %v", err)
-  (4019692479, .copyOfRunLog),  -- stdout: doapprove.Main: fmt.Printf("%s:%s\n", devName, line)
-  (3136646267, .copyOfRunLog),  -- stdout: doapprove.Main: fmt.Println(line)
-  (3043593554, .copyOfRunLog),  -- history: doapprove.Main: doapprove.logHistory(hLog, "RES:", line)
-  (1161963054, .clean),  -- stderr: doapprove.Main: fmt.Fprintf("%s, details in %s\n", okMsg, logFile)
-  (3833772354, .clean),  -- history: doapprove.Main: doapprove.logHistory(hLog, "END:", okMsg)
-  (1755246534, .wrapper),  -- history: doapprove.logHistory: fmt.Fprintln(slices.Concat([]any{prefix}, args))
-  (3935597105, .wrapper),  -- stderr: doapprove.abort: fmt.Fprintf("Error: " + format + "\n", args)
-  (1779343036, .clean),  -- stderr: drc.Main$lit1: fmt.Fprintf("Usage: %s [options] FILE1\n" + " : %s [-q] FILE1 FILE2\n", prog)
-  (254340338, .clean),  -- stderr: drc.Main: fmt.Fprintf("Error: %v\n", err)
-  (3357906566, .clean),  -- stderr: drc.Main: fmt.Fprintf("version %s\n", version)
-  (1557844669, .clean),  -- stderr: drc.Main: drc.abort("%v", err)
-  (1507511812, .clean),  -- stderr: drc.Main: drc.abort("%v", err)
-  (1703673297, .wrapper)   -- stderr: drc.abort: fmt.Fprintf("Error: " + format + "\n", args)
+  (2492921266, .maskUri),    -- panos, session, M:passRE            #1  (getAPIKey: DoLog(loggedURI))
+  (797694342, .maskBody),    -- panos, session, M:keyRE             #1  (getAPIKey: DoLog(loggedBody))
+  (2313729829, .maskApi),    -- panos, session, M:apiRE             #1  (httpPrefixGetLog: DoLog(loggedURI))
+  (3243825016, .maskError),  -- httpdevice, runlog, M:passRE@http.Client.Get[T:key+T:pass] #1 (TryReachableHTTPLogin: Warning(err))
+  (3659553034, .fc17)        -- device, runlog, T:key@http.Client.Get[T:key+T:pass]        #1 (ApproveOrCompare: Abort(err))
 ]
 
 def lookup (id : Nat) : List (Nat × Cover) → Option Cover
@@ -187,9 +60,12 @@ def compatible (taintCode : Nat) : Cover → Bool
   | .maskUri | .maskBody | .maskError | .maskApi => taintCode == 1
   | .clean | .nsxLogin | .deviceOutput | .copyOfRunLog | .wrapper => taintCode == 0
 
+/-- A site into which no secret flows (taintCode 0) needs no entry: whatever it writes — a new message,
+a renamed local, device output — is independent of the secrets.  A site that receives a secret, raw or
+through a redaction step, must be in the table with a compatible class. -/
 def siteOk (s : Site) : Bool :=
   match lookup s.id cover with
-  | none => false
+  | none => s.taintCode == 0
   | some c => compatible s.taintCode c
 
 /-- Sites without a (compatible) entry. -/
@@ -215,25 +91,19 @@ inductive FailureKind where
   | nsxRequest
   deriving DecidableEq, Repr
 
-/-- Hand-written: generated source id → failure kind of the model. -/
+/-- Hand-written: failure kinds whose URL carries secrets (id = hash of API and URL taint class).
+A failure kind with a clean URL needs no entry, wherever the call stands. -/
 def sourceKinds : List (Nat × FailureKind) := [
-  (31414, .panosGet),        -- panos.State.httpGet: s.client.Get(uri)
-  (57134, .panosAddrParse),  -- panos.State.getAPIKey: url.Parse(addr)
-  (8478, .nsxLoginPost),     -- nsx.State.LoadDevice$lit1: s.client.PostForm(uri, v)
-  (67010, .nsxRequest),      -- nsx.State.sendRequest: http.NewRequest(method, s.prefix+path, body)
-  (70132, .nsxRequest)       -- nsx.State.sendRequest: s.client.Do(req)
+  (197749963, .panosGet)     -- http.Client.Get[T:key+T:pass]  (panos.State.httpGet)
 ]
 
 def sourceKind (id : Nat) : List (Nat × FailureKind) → Option FailureKind
   | [] => none
   | (i, k) :: r => if i = id then some k else sourceKind id r
 
-/-- Only the URL of the PAN-OS requests carries secrets. -/
+/-- Only the URL of the PAN-OS requests may carry secrets. -/
 def sourceOk (s : ErrSource) : Bool :=
-  match sourceKind s.id sourceKinds with
-  | some .panosGet => s.urlCode == 9
-  | some _ => s.urlCode == 0
-  | none => false
+  s.urlCode == 0 || sourceKind s.id sourceKinds == some .panosGet
 
 def unclassifiedSources : List Nat := (errSources.filter fun s => !sourceOk s).map (·.id)
 
@@ -251,8 +121,9 @@ def stepOf (e : Event) : NA.Mask.Step :=
 /-- The steps of a group of packages (1 nsx, 2 ssh back ends + console, 3 panos, 4 the rest). -/
 def stepsOf (grp : Nat) : List NA.Mask.Step := (events.filter fun e => e.grp == grp).map stepOf
 
-/-- Kind and raw secrets of the steps of one function, in source order. -/
-def shapeOf (fnId : Nat) : List (Nat × List Nat) := (events.filter fun e => e.fnId == fnId).map fun e => (e.kind, e.secrets)
+/-- Is a value carrying exactly these raw secrets transmitted to the device somewhere in the group? -/
+def transmits (grp : Nat) (secrets : List Nat) : Bool :=
+  events.any fun e => e.grp == grp && e.kind == 1 && e.secrets == secrets
 
 /-- Sink kinds that occur (kindCode of `Site`). -/
 def kindsPresent : List Nat := [1, 2, 3, 4, 5, 6].filter fun k => sites.any fun s => s.kindCode == k
